@@ -111,10 +111,16 @@ let c05_judge_site args =
   match args with
   | [lang; cfg; site; g; t; obs] ->
     let l = lang_of lang and c = c05cfg cfg and s = site_of site and g = to_list to_str g and t = to_rtype t in
+    (* Go: the verdict takes the uppercase_acronyms of the configuration (good_C05_site_go; with no acronyms it IS
+       good_C05_site Go, Props C05_good_site_go_nil): fields and payloads are judged against the REWRITTEN translation *)
+    let acrs = cfg_strs cfg "uppercase_acronyms" in
+    let go = (match l with Model.Go -> true | _ -> false) in
     L [ of_bool (Model.dom_C05 t);
         of_opt (fun k -> A (site_class_name k)) (Model.known_C05_site l c s g t);
-        of_bool (Model.good_C05_site l c s g t (to_opt to_texp obs));
-        of_texp (Model.c05_norm (Model.c05_erase l c (Model.c05_site_generics s g) t)) ]
+        of_bool (if go then Model.good_C05_site_go acrs c s g t (to_opt to_texp obs)
+                 else Model.good_C05_site l c s g t (to_opt to_texp obs));
+        of_texp (Model.c05_norm (if go then Model.c05_go_expected acrs c s g t
+                                 else Model.c05_erase l c (Model.c05_site_generics s g) t)) ]
   | _ -> raise (Bad "c05_judge_site args")
 
 let () =
